@@ -31,6 +31,30 @@ M = {
             "methane SCP or cellulosic sugar in the scenario, shutoff continued / continued_after_10_percent_fed, a country not already at its biofuel ceiling; only the feed-maximising round is wrong"),
  "C02-m2": ("C02", ["C02", "C01"], "seaweed counted in tonnes instead of kcals in the biofuel total (SEAWEED_KCALS factor dropped in get_biofuel_sum)",
             "seaweed in the scenario, biofuel demand still positive once seaweed is produced (continued shut-off schedules), a coastal country that round 2 granted biofuel; only round 3"),
+ "C06-m1": ("C06", ["C06"], "pregnancies computed from the un-clamped 'births needed' (baseline births themselves still clamped at 0)",
+            "a meat herd whose dairy counterpart sends in more animals than it loses at baseline: 6 of 198 herds (BGR/GEO meat_buffalo, MLI meat_sheep, MKD/MDA/BLR meat_goat); month 0 only"),
+ "C06-m2": ("C06", ["C06"], "'empty herd' early return in calculate_animal_population drops incoming births and dairy transfers of a herd that starts a month at exactly 0 head",
+            "a herd at exactly zero at the start of a month while births/transfers still arrive: feed_only_ruminants or reduced strategies once a meat herd is exhausted"),
+ "C07-m1": ("C07", ["C07"], "under feed_only_ruminants feed_animals() is handed the ruminants list instead of all animals",
+            "breeding strategy feed_only_ruminants (used by no shipped YAML and no test) plus some feed"),
+ "C07-m2": ("C07", ["C07", "C14"], "per-head energy requirement cached in a module-level dict keyed by animal type, ignoring the country's regional LSU factor",
+            "at least two countries run in the same process, the later one in a different livestock-unit region; the first country of a process is exactly right"),
+ "C08-m1": ("C08", ["C08"], "'annual minimum' of the stock buffer taken over April-December only",
+            "a country whose strict stock minimum falls in January-March (ALB, BOL, CHL, IRN, LAO, PER, URY) with stored_food baseline and a non-zero untouched share"),
+ "C08-m2": ("C08", ["C08"], "crop disruption year blocks cut to the simulated years (last simulated year gets the extra 4 months)",
+            "horizon below 120 months with a nuclear-winter crop disruption; only the last four simulated months; identical at 120 months"),
+ "C09-m1": ("C09", ["C09"], "two cooperating edits: no-greenhouse branch returns an integer zero array as greenhouse fraction and the relocation buffer is allocated with zeros_like(it)",
+            "resilient-food set relocated_crops (relocation on, greenhouses off), visible on small producers"),
+ "C09-m2": ("C09", ["C09"], "greenhouse area refactored around a normalised scale-up curve; the zero-cropland guard moved below the point where the cropland share is set",
+            "a country with zero cropland but non-zero crop production (only SGP) and a scenario with greenhouses"),
+ "C16-m1": ("C16", ["C16"], "the round-2 abort test (meat with feed lower than without) gets a 1 % tolerance, so small deficits reach the redistribution assertion",
+            "a cell where round-2 meat is below round-1 meat by between 0 and 1 % (after the repository's fix: commits: e.g. LSO under the example scenario with reduce_breeding)"),
+ "C16-m2": ("C16", ["C16"], "the 20 kcal/person/day reduction of round-2 feed/biofuel is skipped exactly in the no-storage regime (missing 'not')",
+            "a preset with ratio_stocks_untouched: no_stored_between_years and a sensitive country (NIC, CAF, URY, NZL under 'No Adaptations'; world under figure 3 'no adaptations')"),
+ "C17-m1": ("C17", ["C17"], "create_meat_per_animal_csv.py takes its country filter from milk_per_animal_csv.csv instead of head_count_csv.csv (undeclared dependency)",
+            "an order with the meat script before the milk script (valid for the original code) and a missing or truncated milk_per_animal_csv.csv; the documented pass stays byte-identical"),
+ "C17-m2": ("C17", [], "vectorised averaging helper masks impossible values by multiplication (inf * 0 = nan)",
+            "a percentage vector containing +-inf next to a valid weighted value; never occurs in the 1630 helper calls of the real pipeline. NOT CAUGHT by design: the averaging-helper clause of C17 is a pure function over arbitrary vectors and is declared not applicable for this technique (DESIGN.md 6)"),
  "C11-m1": ("C11", ["C11"], "units assertion of Food.__truediv__ moved behind the monthly-series return",
             "both operands monthly series with different label triples and the operator '/'"),
  "C11-m2": ("C11", ["C11"], "monthly all_less_than_or_equal_to uses exclude_fat for the protein clause",
